@@ -36,14 +36,23 @@ func (idx Index) Graph(
 	// Intuitive, I know.
 	// See: https://stackoverflow.com/a/7586857/857893
 	stageSubgraphName := "cluster_" + stagePath
-	if graph.IsNode(stagePath) {
+	// inProgress doubles as the record of visited Stages: a Stage maps to true
+	// while it is on the recursion stack (meeting it again means we're in
+	// a cycle) and to false once it has been drawn. (Asking the graph whether
+	// a node named like the Stage exists is not reliable: node names are
+	// escaped, and an Artifact may be named like a Stage file.)
+	if onStack, visited := inProgress[stagePath]; visited {
+		if onStack {
+			// Leave only the recursion stack (i.e. the Stages involved in
+			// the cycle) behind for the caller.
+			for path, stillOnStack := range inProgress {
+				if !stillOnStack {
+					delete(inProgress, path)
+				}
+			}
+			return errors.New("cycle detected")
+		}
 		return nil
-	}
-
-	// If we've visited this Stage but haven't recorded its status (the check
-	// above), then we're in a cycle.
-	if inProgress[stagePath] {
-		return errors.New("cycle detected")
 	}
 	inProgress[stagePath] = true
 
@@ -133,6 +142,6 @@ func (idx Index) Graph(
 			return err
 		}
 	}
-	delete(inProgress, stagePath)
+	inProgress[stagePath] = false
 	return nil
 }
